@@ -75,11 +75,13 @@ class Ctx(object):
             self.notes[name] += k
 
     def nontrivial(self, key_obj):
+        self.cur_nt = True
         if self.counting and self.stratum != "regress":
             self.nontrivial_total += 1
             self.nontrivial_keys.add(key_obj if isinstance(key_obj, int) else key_of(key_obj))
 
     def nontrivial_distinct_by_construction(self, k=1):
+        self.cur_nt = True
         if self.counting and self.stratum != "regress":
             self.nontrivial_total += k
             self.nontrivial_unkeyed += k
@@ -103,7 +105,7 @@ class Ctx(object):
             return
         self.sample_classes.add(cls)
         self.samples.append(
-            {"stratum": self.stratum, "class": cls, "case": short(case, 700), "outcome": outcome}
+            {"stratum": self.stratum, "class": cls, "case": short(case, 700), "outcome": outcome, "nontrivial": bool(getattr(self, "cur_nt", False))}
         )
 
     # ---- results
@@ -165,6 +167,7 @@ def run_case(ctx, prop, case):
     if ctx.counting:
         ctx.evaluations += 1
         ctx.per_stratum[ctx.stratum] += 1
+    ctx.cur_nt = False
     try:
         prop.check(case, ctx)
         return
@@ -577,6 +580,7 @@ def make_history_machine(ctx, prop, rules_spec, init_strategy, step_count=12):
                 ctx.evaluations += 1
                 ctx.per_stratum[ctx.stratum] += 1
                 ctx.note("steps", len(self.steps))
+                ctx.cur_nt = False
                 prop.account(self._case(), ctx)
 
     for name, strategies in rules_spec.items():
